@@ -444,3 +444,73 @@ mod tests {
         assert!(!d.negative_circuit);
     }
 }
+
+/// Closed-form arc sets of the deterministic generators, written from the
+/// property text (C14), not from graaf's code.
+pub fn closed_form(kind: &str, n: usize, m2: usize) -> (usize, Vec<(usize, usize)>) {
+    let mut a: BTreeSet<(usize, usize)> = BTreeSet::new();
+    let mut order = n;
+    match kind {
+        "empty" => {}
+        "complete" => {
+            for u in 0..n {
+                for v in 0..n {
+                    if u != v {
+                        a.insert((u, v));
+                    }
+                }
+            }
+        }
+        "circuit" => {
+            if n > 1 {
+                for i in 0..n {
+                    a.insert((i, (i + 1) % n));
+                }
+            }
+        }
+        "cycle" => {
+            if n > 1 {
+                for i in 0..n {
+                    a.insert((i, (i + 1) % n));
+                    a.insert(((i + 1) % n, i));
+                }
+            }
+        }
+        "path" => {
+            for i in 0..n.saturating_sub(1) {
+                a.insert((i, i + 1));
+            }
+        }
+        "star" => {
+            for i in 1..n {
+                a.insert((0, i));
+                a.insert((i, 0));
+            }
+        }
+        "wheel" => {
+            // star(n) united with the cycle through 1..n-1
+            for i in 1..n {
+                a.insert((0, i));
+                a.insert((i, 0));
+            }
+            let rim = n - 1;
+            for i in 0..rim {
+                let (x, y) = (1 + i, 1 + (i + 1) % rim);
+                a.insert((x, y));
+                a.insert((y, x));
+            }
+        }
+        "biclique" => {
+            // u <-> v exactly for u < m <= v < m + n   (here m = n, n = m2)
+            order = n + m2;
+            for u in 0..n {
+                for v in n..n + m2 {
+                    a.insert((u, v));
+                    a.insert((v, u));
+                }
+            }
+        }
+        _ => panic!("harness: unknown closed form {kind}"),
+    }
+    (order, a.into_iter().collect())
+}
